@@ -309,62 +309,80 @@ SERDE_TYPES = [
 ]
 
 
+def item_attrs(s, start):
+    """the attributes immediately preceding the item that starts at s[start]"""
+    head = s[:start]
+    attrs = []
+    while True:
+        h = head.rstrip()
+        if not h.endswith("]"):
+            break
+        depth = 0
+        i = len(h) - 1
+        while i >= 0:
+            if h[i] == "]":
+                depth += 1
+            elif h[i] == "[":
+                depth -= 1
+                if depth == 0:
+                    break
+            i -= 1
+        if i > 0 and h[i - 1] == "#":
+            attrs.append(h[i + 1:-1])
+            head = h[:i - 1]
+        else:
+            break
+    return attrs
+
+
 def parse_serde_shapes(srcs):
-    """For each public type: how Deserialize is obtained.
-       'try_from:<T>' | 'derive' | 'repr' | 'none' """
+    """For each public type: how Deserialize is obtained, as far as the source text shows.
+       'derive'        a plain derive(Deserialize): fields are stored unvalidated
+       'try_from:<T>'  derive with serde(try_from = "T") (type aliases of the file resolved)
+       'repr'          serde_repr
+       'custom'        a hand-written `impl Deserialize for <type>` somewhere in the crate
+       'unknown'       none of these was recognised (e.g. the item is generated by a macro)"""
     shapes = []
+    alltext = "\n".join(srcs.values())
     for f, kind, name in SERDE_TYPES:
-        s = srcs.get(f, "")
-        m = re.search(r"pub\s+%s\s+%s\b" % (kind, re.escape(name)), s)
-        if not m:
-            errors.append("type %s not found in %s" % (name, f))
-            continue
-        # attributes immediately preceding the item
-        head = s[:m.start()]
-        attrs = []
-        while True:
-            mm = re.search(r"#\s*\[([^\[\]]*(?:\[[^\]]*\][^\[\]]*)*)\]\s*$", head, re.S)
-            if not mm:
-                # handle nested parens inside attribute by a manual scan
-                h = head.rstrip()
-                if h.endswith("]"):
-                    # find the matching "#["
-                    depth = 0
-                    i = len(h) - 1
-                    while i >= 0:
-                        if h[i] == "]":
-                            depth += 1
-                        elif h[i] == "[":
-                            depth -= 1
-                            if depth == 0:
-                                break
-                        i -= 1
-                    if i > 0 and h[i - 1] == "#":
-                        attrs.append(h[i + 1:-1])
-                        head = h[:i - 1]
-                        continue
+        pretty = name.replace("$name", "newtype")
+        # the declaration: in its usual file, else anywhere in the crate
+        cands = [srcs.get(f, "")] + [t for g, t in srcs.items() if g != f]
+        m = None
+        s = ""
+        for t in cands:
+            m = re.search(r"pub\s+%s\s+%s\b" % (kind, re.escape(name)), t)
+            if m:
+                s = t
                 break
-            attrs.append(mm.group(1))
-            head = head[:mm.start()]
-        text = " ".join(attrs)
-        shape = "none"
-        if re.search(r"Deserialize_repr", text):
-            shape = "repr"
-        elif re.search(r"\bDeserialize\b", text):
-            t = re.search(r'serde\s*\(\s*try_from\s*=\s*"([^"]*)"', text)
-            if t:
-                ty = re.sub(r"\s+", "", t.group(1))
-                # a (private) type alias of the same file stands for its definition
-                for _ in range(4):
-                    al = re.search(r"\btype\s+%s\s*=\s*([^;]+);" % re.escape(ty), s)
-                    if not al:
-                        break
-                    ty = re.sub(r"\s+", "", al.group(1))
-                ty = re.sub(r"\b(?:crate|super|self)::", "", ty)
-                shape = "try_from:" + ty
-            else:
-                shape = "derive"
-        shapes.append((name.replace("$name", "newtype"), shape))
+        custom = re.search(r"\bimpl\s*<\s*'de[^>]*>\s*(?:[\w:]*::)?Deserialize\s*<\s*'de\s*>\s*for\s+(?:[\w:]*::)?%s\b"
+                           % re.escape(name), alltext)
+        shape = "unknown"
+        if m:
+            text = " ".join(item_attrs(s, m.start()))
+            if re.search(r"Deserialize_repr", text):
+                shape = "repr"
+            elif re.search(r"\bDeserialize\b", text):
+                t = re.search(r'serde\s*\(\s*try_from\s*=\s*"([^"]*)"', text)
+                if t:
+                    ty = re.sub(r"\s+", "", t.group(1))
+                    # a (private) type alias of the same file stands for its definition
+                    for _ in range(4):
+                        al = re.search(r"\btype\s+%s\s*=\s*([^;]+);" % re.escape(ty.split("::")[-1]), s)
+                        if not al:
+                            break
+                        ty = re.sub(r"\s+", "", al.group(1))
+                    ty = re.sub(r"\b(?:crate|super|self)::", "", ty)
+                    shape = "try_from:" + ty
+                elif re.search(r'serde\s*\(\s*(?:from|remote|deserialize_with|with)\b', text):
+                    shape = "unknown"
+                else:
+                    shape = "derive"
+            elif custom:
+                shape = "custom"
+        elif custom:
+            shape = "custom"
+        shapes.append((pretty, shape))
     return shapes
 
 
